@@ -4,8 +4,8 @@ SPEC = {
     "props": ["props/C01.vo"],
     # the transformers of the Bytes machine that are read off today's source (Tie A): a change of one of these functions breaks the
     # transfer lemma (or makes the item unavailable) before any input is searched for
-    "tie": ["tie/HandleEquiv.vo", "tie/ReprEquiv.vo", "tie/EditEquiv.vo"],
-    "gen_items": ["src/bytes/raw/allocated.rs:slice_unchecked + explicit_clone", "src/bytes/raw.rs:range_unchecked + from_slice + normalized_from_vec",
+    "tie": ["tie/HandleEquiv.vo", "tie/CorePinned.vo", "tie/ReprEquiv.vo", "tie/EditEquiv.vo"],
+    "gen_items": ["src/bytes/raw/allocated.rs:slice_unchecked + explicit_clone", "src/bytes/raw*.rs + src/smart.rs:pinned bodies", "src/bytes/raw.rs:range_unchecked + from_slice + normalized_from_vec",
                   "src/bytes.rs:truncate pop shrink_to push_slice push clear repeat with_capacity as_mut_* to_mut_slice; raw.rs:make_unique take_vec; allocated.rs:shrink_to as_mut_*"],
     "tieA_required": True,
     "case_libs": ["theories/CasesBytes.vo"],
